@@ -2804,6 +2804,8 @@ def _transmission_body_moment(
 
     if contact_dim == 1 or opt_cone == ConeType.ELLIPTIC:
       efcid0 = contact_efc_address[0]
+      if efcid0 < 0:
+        return  # the contact's rows were dropped (njmax overflow)
       if efc_is_sparse:
         rownnz = efc_J_rownnz_in[worldid, efcid0]
         if dofid < rownnz:
@@ -2822,6 +2824,8 @@ def _transmission_body_moment(
 
       for j in range(2 * npyramid):
         efcid = contact_efc_address[j]
+        if efcid < 0:
+          return  # the contact's rows were dropped (njmax overflow)
         if efc_is_sparse:
           rownnz = efc_J_rownnz_in[worldid, efcid]
           if dofid < rownnz:
